@@ -225,6 +225,27 @@ CLAIMS["C19"] = (
     "and loop termination are NOT decided.",
 )
 
+# clauses added during the build (seeded changes and triage showed they were not covered); appended to the claim text
+ADDED = {
+    "C01": " Added: the Content-Length decoder is reachable only on the not-chunked edge (Transfer-Encoding wins).",
+    "C02": " Added: per-request codec flags are recomputed for every decoded request (not only switched on); the transfer encoder follows the declared size (Sized -> Length, cut and accounted; one terminator); FIFO request queue; flush accounting shared with C04; the stored error ends the task only with state none and an empty write buffer; upgrade hands the write buffer over.",
+    "C03": " Added: FINISHED survives the drain phase; the close decision is taken before the response body is dropped; a body decoder is installed for every request with a body.",
+    "C04": " Added: the stored error is returned only after the error response was flushed and every dispatched request answered; the Poll of every dispatcher timer is examined (a discarded Ready of a timer armed with a past deadline was a lost wake-up: found and fixed).",
+    "C05": " Added: the producer side updates the back-pressure flag.",
+    "C06": " Added: linger deadline not re-armed; draining still decodes the in-flight body; FINISHED (or a close) is marked at the end of every response body, so the keep-alive timer can be armed; timer polls are examined (shared with C04).",
+    "C08": " Added: END_STREAM accounting of a computed flag; eof decided after the status adjustment; the reservation for the rest of a chunk is recomputed each round.",
+    "C09": " Added: configure() keeps a builder's default service unless the configuration supplies one.",
+    "C10": " Added: captured segments are looked up by name; build_resource_path appends static text and values verbatim.",
+    "C11": " Added: head fields not reset by clear() are overwritten on every path to the hand-off (must-pass, both protocols).",
+    "C12": " Added: the bound compared is the configured limit itself (no path replaces it by a constant).",
+    "C13": " Added: a handler-set Content-Length is removed when an encoder is installed (h2 copied it: found and fixed); the request decoder is put back after every data chunk; negotiate() answers only with a coding taken from an accepted item (q > 0) or with identity when acceptable, and a specific identity item wins over `*` (found and fixed).",
+    "C14": " Added: the Upgrade token is compared case-insensitively; the extended length field carries payload.len() itself.",
+    "C15": " Added: a delimiter candidate at the head waits for enough bytes; the head check covers the scan's look-ahead; the scan resumes at the next byte.",
+    "C16": " Added: the segment checks run on the decoded path and the checked PathBuf is what is returned; 412 takes precedence over 304.",
+    "C17": " Added: client codec per-exchange state (response `close` wins, HEAD flag and connection type recomputed per request, payload slot rewritten, no payload decoder for HEAD); chunked wins over Content-Length for responses; STREAM flag implies a payload decoder.",
+    "C19": " Added: constant-bound slices (also of `str`, also `a..len-c`) need a dominating length test; STREAM flag never set with an empty payload slot (unwrap on None).",
+}
+
 NOT_YET = "check not built yet in this round (planned per DESIGN.md section 4); not claimed until it exists"
 
 NOT_APPLICABLE = {}
@@ -246,7 +267,7 @@ def main():
                     evidence_file="/verif/evidence/%s.json" % pid,
                     replay_cmd_template="./check explain {path}",
                     engine="avlint",
-                    level_claimed=dict(category="other", text=text, design_ref="DESIGN.md section " + ref),
+                    level_claimed=dict(category="other", text=text + ADDED.get(pid, ""), design_ref="DESIGN.md sections %s and 8 (rule catalogue)" % ref),
                     level_note=NOTE,
                     technique=tech,
                 )
